@@ -201,10 +201,14 @@ func (ans *answer) Return(e error) {
 		case <-ans.c.bgctx.Done():
 		default:
 			ans.c.tasks.Done() // added by handleCall
-			if err := ans.c.shutdown(err); err != nil {
-				ans.c.report(err)
-			}
-			// shutdown released c.mu
+			ans.c.mu.Unlock()
+			// The connection must be shut down, but not on this goroutine:
+			// Return is executing on behalf of a call that its server still
+			// counts as ongoing, and shutdown releases the bootstrap
+			// capability and the exports.  If the Conn holds the last
+			// reference to that server, its Shutdown waits for this very
+			// call to finish.
+			go ans.c.shutdownAfterReturn(err)
 			rl.release()
 			ans.pcalls.Wait()
 			return
@@ -215,6 +219,24 @@ func (ans *answer) Return(e error) {
 	rl.release()
 	ans.pcalls.Wait()
 	ans.c.tasks.Done() // added by handleCall
+}
+
+// shutdownAfterReturn shuts the connection down because sending a Return
+// uncovered a protocol violation, unless somebody else already started
+// the shutdown.  It must not be called while holding c.mu.
+func (c *Conn) shutdownAfterReturn(abortErr error) {
+	c.mu.Lock()
+	select {
+	case <-c.bgctx.Done():
+		c.mu.Unlock()
+		return
+	default:
+	}
+	c.report(abortErr)
+	// shutdown unlocks c.mu.
+	if err := c.shutdown(abortErr); err != nil {
+		c.report(err)
+	}
 }
 
 // sendReturn sends the return message with results allocated by a
